@@ -76,6 +76,7 @@ ODD_SNIPPETS = [
     's%d := x if {\n\tfmt := "%s and %s"\n\tx := sprintf(fmt, [1])\n}',     # format in a variable, arity mismatch
     's%d := x if {\n\tfmt := "%s"\n\n\n\tx := sprintf(fmt, [1, 2])\n}',
     's%d := sprintf("%v %v %d", [1])',
+    'q%d(x) if 1 == 2\n\nq%d(x) if "a" == x\n\nq%d(x) if x == null',            # comparisons with scalars on either side
     'm%d\n\t= 100',                                                          # operator on a later line than the head
     'm%d[k]\n\t= v if {\n\tsome k, v in input.o\n}',
     'm%d(x)\n\t= y if y := x',
